@@ -1,5 +1,6 @@
 mod drive;
 mod exprcase;
+mod fromtext;
 mod fmtcase;
 mod lexcase;
 mod render;
